@@ -786,6 +786,7 @@ func (t *taintEngine) uncheckedKind(fn *ssa.Function, sink ssa.Instruction, v ss
 		// comparison in the sink's own block precedes? (If is last, sink is before it) — not a guard
 		delete(cb, sink.Block().Index)
 	}
+	dropNonBounding(fn, cb, sink, v)
 	del := map[edge]bool{}
 	for bi := range cb {
 		for si := range fn.Blocks[bi].Succs {
@@ -1161,6 +1162,7 @@ func (t *taintEngine) indexUnchecked(fn *ssa.Function, sink ssa.Instruction, v s
 		}
 		delete(cb, sink.Block().Index)
 	}
+	dropNonBounding(fn, cb, sink, v)
 	del := map[edge]bool{}
 	for bi := range cb {
 		for si := range fn.Blocks[bi].Succs {
@@ -1173,6 +1175,91 @@ func (t *taintEngine) indexUnchecked(fn *ssa.Function, sink ssa.Instruction, v s
 		return true, t.p.witness(fn, pred, sink.Block().Index)
 	}
 	return false, nil
+}
+
+// dropNonBounding removes from cb the comparison blocks that bound nothing for this sink.
+func dropNonBounding(fn *ssa.Function, cb map[int]bool, sink ssa.Instruction, v ssa.Value) {
+	// a comparison bounds the position only when one of its outcomes keeps the sink from being
+	// reached, or when the position used at the sink is redefined where the two outcomes meet (a
+	// clamp); a test both of whose sides go on to the sink with the same value bounds nothing
+	for bi := range cb {
+		B := fn.Blocks[bi]
+		if _, isIf := B.Instrs[len(B.Instrs)-1].(*ssa.If); !isIf || len(B.Succs) != 2 {
+			continue
+		}
+		out := map[edge]bool{{bi, 0}: true, {bi, 1}: true}
+		rejecting := false
+		for _, s := range B.Succs {
+			if s == B {
+				continue
+			}
+			if !reach(fn, []*ssa.BasicBlock{s}, out, nil)[sink.Block().Index] {
+				rejecting = true
+			}
+		}
+		if rejecting {
+			continue
+		}
+		clamping := arithDependsOn(v, func(x ssa.Value) bool {
+			ph, ok := x.(*ssa.Phi)
+			if !ok || ph.Block() == B || !B.Dominates(ph.Block()) {
+				return false
+			}
+			side := map[int]bool{}
+			for _, pb := range ph.Block().Preds {
+				switch {
+				case pb == B:
+					side[-1] = true
+				case B.Succs[0].Dominates(pb) && !B.Succs[1].Dominates(pb):
+					side[0] = true
+				case B.Succs[1].Dominates(pb) && !B.Succs[0].Dominates(pb):
+					side[1] = true
+				default:
+					side[2] = true
+				}
+			}
+			return len(side) > 1
+		})
+		if !clamping {
+			delete(cb, bi)
+		}
+	}
+}
+
+// arithDependsOn: like dependsOn, but only through arithmetic (conversions, binary and unary
+// operators, phis): the value itself, not the buffers and calls it was read through.
+func arithDependsOn(v ssa.Value, pred func(ssa.Value) bool) bool {
+	seen := map[ssa.Value]bool{}
+	var walk func(v ssa.Value, d int) bool
+	walk = func(v ssa.Value, d int) bool {
+		if v == nil || seen[v] || d > 30 {
+			return false
+		}
+		seen[v] = true
+		if pred(v) {
+			return true
+		}
+		switch x := v.(type) {
+		case *ssa.Convert:
+			return walk(x.X, d+1)
+		case *ssa.ChangeType:
+			return walk(x.X, d+1)
+		case *ssa.BinOp:
+			return walk(x.X, d+1) || walk(x.Y, d+1)
+		case *ssa.UnOp:
+			if x.Op != token.MUL {
+				return walk(x.X, d+1)
+			}
+		case *ssa.Phi:
+			for _, e := range x.Edges {
+				if walk(e, d+1) {
+					return true
+				}
+			}
+		}
+		return false
+	}
+	return walk(v, 0)
 }
 
 // wireKeyOf extracts "pkg.Type.field" from a label's origin text.
